@@ -1088,6 +1088,12 @@ class Lib:
             return VU(APP(fv.t, a))
         if st.branch(APPFAILS(fv.t, a), f"app-fails@{line}"):
             st.ghost["__failed"] = True
+            if getattr(eng.cur, "foreign_base", False) and st.branch(
+                    st.fresh("raises_base", z3.BoolSort()),
+                    f"app-raises-base@{line}"):
+                # e.g. KeyboardInterrupt / SystemExit: not an Exception
+                raise E.RaiseEx("ForeignBase", line, "callable raised a "
+                                "BaseException that is not an Exception")
             raise E.RaiseEx("Foreign", line, "callable raised")
         self.ext.note_app(st, fv.t, a)
         return VU(APP(fv.t, a), tok=getattr(arg, "tok", None))
